@@ -10,7 +10,7 @@ _C05_ENV = {"ASAN_OPTIONS": "detect_leaks=0:abort_on_error=1:allocator_may_retur
 rc_target("c05_base64hex", flavour="asan", portable_encoding=True, env=_C05_ENV)
 rc_target("c05_utf8", flavour="asan", env=_C05_ENV)
 fuzz_target("c05_codec_diff", portable_encoding=True, max_len=160)
-plan("C05", [T("c05_base64hex", 20000, 200000), T("c05_utf8", 30000, 300000), F("c05_codec_diff", 15, 240, 2, 2)], min_nt=29000,
+plan("C05", [T("c05_base64hex", 20000, 200000), TT(GCC("c05_base64hex"), 20000), T("c05_utf8", 30000, 300000), F("c05_codec_diff", 15, 240, 2, 2)], min_nt=29000,
      rule="base64/hex: an input of >=25 bytes (>32 characters for decode), or a decode text whose mutation lies in the final quantum, or a "
           "256-value sweep of one final-quantum position; UTF-8: a generated cut point inside a multi-byte sequence",
      technique="property-based differential testing (rapidcheck): the default build (AVX2 path) and a portable build of source/encoding.c linked "
